@@ -109,12 +109,15 @@ ScatterOnce == (Done /\ kind = "scatter") =>
 (* predicates used on recorded data (TraceSummaries)                       *)
 (***************************************************************************)
 CountOf(labels, x) == Cardinality({ i \in 1..Len(labels) : labels[i] = x })
-ColoursOK(labels, minc, cols, distinct) ==
+\* multiplicity of every label, computed once (hundreds of labels: counting inside the quantifiers would be cubic)
+CountsOfLabels(labels) == [x \in { labels[i] : i \in 1..Len(labels) } |-> CountOf(labels, x)]
+ColoursOKc(labels, minc, cols, distinct, cnt) ==
     /\ Len(cols) = Len(labels)
     /\ \A i, j \in 1..Len(labels) : labels[i] = labels[j] => cols[i] = cols[j]
-    /\ \A i \in 1..Len(labels) : (minc > 0 /\ CountOf(labels, labels[i]) < minc) => cols[i] = 0          \* 0 = black
+    /\ \A i \in 1..Len(labels) : (minc > 0 /\ cnt[labels[i]] < minc) => cols[i] = 0          \* 0 = black
     /\ distinct => \A i, j \in 1..Len(labels) :
-          (labels[i] # labels[j] /\ (minc = 0 \/ (CountOf(labels, labels[i]) >= minc /\ CountOf(labels, labels[j]) >= minc))) => cols[i] # cols[j]
+          (labels[i] # labels[j] /\ (minc = 0 \/ (cnt[labels[i]] >= minc /\ cnt[labels[j]] >= minc))) => cols[i] # cols[j]
+ColoursOK(labels, minc, cols, distinct) == \E cnt \in { CountsOfLabels(labels) } : ColoursOKc(labels, minc, cols, distinct, cnt)
 \* split heat map: alpha distances below, beta distances above the diagonal, rows / columns in dendrogram order o
 SplitHeat(da, db, o) == [i \in 1..Len(o) |-> [j \in 1..Len(o) |->
     IF i > j THEN da[o[i]][o[j]] ELSE IF i < j THEN db[o[i]][o[j]] ELSE da[o[i]][o[i]] + db[o[i]][o[i]]]]
